@@ -100,6 +100,9 @@ impl Prop for C07 {
     fn id(&self) -> &'static str {
         "C07"
     }
+    fn canary(&self) -> bool {
+        true
+    }
     fn rule(&self) -> String {
         "cases = (a) binary resultsets answered to COM_STMT_EXECUTE with 1-600 columns (sizes biased to 1, 6, 7, 8, 14-16, 22-24, 62-66, 126-128, 250-600 where the +2 bitmap offset crosses byte boundaries) of every type the encoders accept, both signednesses, random NOT NULL flags, rows with arbitrary NULL patterns (None, &None, Value::NULL, &Value::NULL) and type-matching values (natural pairs and documented widenings), each cell by value / by reference / in Option / as mysql_common::Value, via write_col, write_row(values), write_row(&values); one row in six written with write_col first offers some columns (biased to the first, the last and the surplus column after the last) a value they cannot carry - NULL for NOT NULL, bytes/float/date/duration for a foreign column type - which must be refused with an error and leave no trace in the row that the shim then completes with its fallback value; (b) single writes of any value to any column through the public encoder, judged by the acceptance model (natural pair => must be accepted and decode exactly; foreign type => must be refused; otherwise exact-or-refused). Oracle: reference binary-row decoder driven only by the advertised column definitions. Non-trivial = >= 7 columns with >= 1 NULL, or a temporal/bytes cell, or a refused single write, or a row with refused offers.".into()
     }
